@@ -161,6 +161,8 @@ func errStr(err error) string {
 		return "enoent"
 	case errors.Is(err, os.ErrExist):
 		return "eexist"
+	case errors.Is(err, context.DeadlineExceeded):
+		return "busy"
 	}
 	return "err"
 }
@@ -400,13 +402,18 @@ func (m *engineImpl) Do(line string) string {
 		if !m.need() {
 			return "bad-op"
 		}
+		if !m.store.IsPrimary() { // the mount's gate in RootNode.Remove
+			return "readonly"
+		}
 		m.closeFiles()
 		return m.withExit(errStr(m.db.Drop(ctx)))
 	case "ckpt":
 		if !m.need() {
 			return "bad-op"
 		}
-		return m.withExit(errStr(m.db.Checkpoint(ctx)))
+		tctx, cancel := context.WithTimeout(ctx, 150*time.Millisecond)
+		defer cancel()
+		return m.withExit(errStr(m.db.Checkpoint(tctx)))
 	case "state":
 		return m.state()
 	case "ltx":
@@ -418,7 +425,9 @@ func (m *engineImpl) Do(line string) string {
 			return "bad-op"
 		}
 		var buf bytes.Buffer
-		pos, err := m.db.Export(ctx, &buf)
+		tctx, cancel := context.WithTimeout(ctx, 150*time.Millisecond)
+		defer cancel()
+		pos, err := m.db.Export(tctx, &buf)
 		if err != nil {
 			return errStr(err)
 		}
@@ -428,11 +437,13 @@ func (m *engineImpl) Do(line string) string {
 			return "bad-op"
 		}
 		var buf bytes.Buffer
-		hdr, trl, err := m.db.WriteSnapshotTo(ctx, &buf)
+		tctx, cancel := context.WithTimeout(ctx, 150*time.Millisecond)
+		defer cancel()
+		hdr, trl, err := m.db.WriteSnapshotTo(tctx, &buf)
 		if err != nil {
 			return errStr(err)
 		}
-		d, derr := decodeLTX(buf.Bytes())
+		d, derr := decodeLTX(buf.Bytes(), true)
 		if derr != nil {
 			return "err undecodable-snapshot"
 		}
@@ -463,7 +474,9 @@ func (m *engineImpl) Do(line string) string {
 		m.db = db
 		m.db.Now = func() time.Time { return fixedNow }
 		m.closeFiles()
-		return m.withExit(errStr(m.db.Import(ctx, bytes.NewReader(data))))
+		tctx, cancel := context.WithTimeout(ctx, 150*time.Millisecond)
+		defer cancel()
+		return m.withExit(errStr(m.db.Import(tctx, bytes.NewReader(data))))
 	case "reopen": // restart on the same data directory
 		if m.store == nil {
 			return "bad-op"
@@ -494,7 +507,7 @@ func (m *engineImpl) withExit(s string) string {
 // applyLTX mirrors Store.processLTXStreamFrame's use of the DB: acquire the write lock,
 // write the file into the log, apply it.
 func (m *engineImpl) applyLTX(b []byte) string {
-	ctx, cancel := context.WithTimeout(context.Background(), 2*time.Second)
+	ctx, cancel := context.WithTimeout(context.Background(), 150*time.Millisecond)
 	defer cancel()
 	guard, err := m.db.AcquireWriteLock(ctx, nil)
 	if err != nil {
@@ -571,7 +584,7 @@ func (m *engineImpl) state() string {
 }
 
 // decodeLTX prints an LTX file at the decoded level.
-func decodeLTX(b []byte) (string, error) {
+func decodeLTX(b []byte, full bool) (string, error) {
 	dec := ltx.NewDecoder(bytes.NewReader(b))
 	if err := dec.DecodeHeader(); err != nil {
 		return "", err
@@ -597,7 +610,7 @@ func decodeLTX(b []byte) (string, error) {
 	}
 	t := dec.Trailer()
 	ps := strings.Join(pages, ",")
-	if len(pages) > 12 {
+	if !full {
 		ps = fmt.Sprintf("#%d:%016x", len(pages), fnv64(acc))
 	}
 	return fmt.Sprintf("%d-%d pre=%016x post=%016x commit=%d ps=%d wal=%d,%d,%08x,%08x pages=[%s]", uint64(h.MinTXID), uint64(h.MaxTXID),
@@ -624,7 +637,7 @@ func (m *engineImpl) ltxListing() string {
 	}
 	sort.Strings(names)
 	var out []string
-	for _, n := range names {
+	for k, n := range names {
 		b, err := os.ReadFile(filepath.Join(dir, n))
 		if err != nil {
 			out = append(out, n+":unreadable")
@@ -633,7 +646,7 @@ func (m *engineImpl) ltxListing() string {
 		// integrity: ltx.Decoder.Verify is the trusted oracle for the file-level checksum
 		vdec := ltx.NewDecoder(bytes.NewReader(b))
 		verr := vdec.Verify()
-		d, err := decodeLTX(b)
+		d, err := decodeLTX(b, k == len(names)-1)
 		if err != nil || verr != nil {
 			out = append(out, n+":invalid")
 			continue
@@ -645,12 +658,8 @@ func (m *engineImpl) ltxListing() string {
 		}
 		out = append(out, d)
 	}
-	s := "[" + strings.Join(out, " | ") + "]"
-	if len(other) > 0 {
-		sort.Strings(other)
-		s += " other=" + strings.Join(other, ",")
-	}
-	return s
+	_ = other // temporary files and anything else that is not named like a transaction file are not part of the log
+	return "[" + strings.Join(out, " | ") + "]"
 }
 
 // rawChecksum recomputes, from nothing, the checksum of the logical image as read from the raw
